@@ -5,6 +5,7 @@
                      | {"kind": "ws"|"rs", "role": "server"|"client", "ser": "json"|"msgpack"|"cbor", "limit": 512},
           "ecls": [[cls, uri], ...], "ops": [op, ...]}
   op   = ["reg", reg, wants_details, is_coro (, check_types, "ok"|"short"|"ill", signature kind)] | ["unreg", reg] | ["inv", req, reg, payload, [caller|null, caller_authid|null, procedure|null (, timeout|null)], rp = null|false|true, beh]
+       | ["regobj", obj id, flavour, call-level details null|false|true, prefix?, [[reg, own details null|false|true, is_coro], ...]]
        | ["int", req] | ["res", k, result] | ["prog", k, payload] | ["lose"] | ["turn"]
   payload = ["val", id, unser, big (, target octets of the serialized YIELD/ERROR; real transports)] | ["none"] | ["empty"];  retval = ["plain", p] | ["cr", p]
   exn = ["app", u, p] | ["other", cls, p];  result = ["ok", retval] | ["err", exn]
@@ -164,6 +165,27 @@ def dec_wire(m):
             if single: p = ["bad", "single in error"]
         return ["sent", ["error", m[2], u, p]]
     return None
+
+
+class _Objects:
+    """instances given to session.register(obj): their truth value, equality and hash must not matter"""
+    @staticmethod
+    def make(flavour, methods):
+        ns = dict(methods)
+        if flavour in ("empty", "flip"):
+            ns["__len__"] = lambda self: len(self.items)
+        if flavour == "false":
+            ns["__bool__"] = lambda self: False
+        if flavour == "oddeq":
+            def _boom(self): raise RuntimeError("truth value of a registered object was asked for")
+            ns["__bool__"] = _boom
+            ns["__eq__"] = lambda self, other: True
+            ns["__ne__"] = lambda self, other: False
+            ns["__hash__"] = lambda self: 0
+        cls = type("Svc_" + flavour, (object,), ns)
+        o = cls()
+        o.items = [1] if flavour == "flip" else []
+        return o
 
 
 def dec_details(det):
@@ -398,7 +420,7 @@ def run_case(case):
             raise
     sess.onMessage = onMessage
 
-    C = {"nextk": 0, "by_arg": {}, "k_of_arg": {}, "fut": {}, "det": {}, "regs": {}, "info": {}, "req_of_k": {}}
+    C = {"nextk": 0, "by_arg": {}, "k_of_arg": {}, "fut": {}, "det": {}, "regs": {}, "info": {}, "req_of_k": {}, "obj_of_reg": {}, "objs": {}}
 
     def slen(msg):
         return len(link.ser.serialize(msg)[0]) if real else 0
@@ -436,10 +458,15 @@ def run_case(case):
             L.append(["prograised", k, type(e).__name__])
             if inside: raise
 
-    def body_start(a, kw, det, reg):
-        """what the endpoint received: positional tuple a, keyword dict kw (without the details), details det"""
+    def body_start(a, kw, det, reg, self_=None, is_method=False):
+        """what the endpoint received: positional tuple a, keyword dict kw (without the details), details det;
+        for a method of a registered object also what arrived as `self`"""
         single, p = dec_payload(a, kw)
         argid = p[1] if p[0] == "val" else None
+        if is_method:
+            oid = C["obj_of_reg"].get(reg)
+            if oid is not None and self_ is C["objs"].get(oid): p = ["self", oid, p]
+            else: p, argid = ["bad", "self is %r, args %r" % (type(self_).__name__, a[:2])], None
         k = C["k_of_arg"].get(argid, -1)
         info = C["info"].get(argid, {})
         L.append(["called", k, info.get("req", -1), reg, p if not single else ["bad", "single"],
@@ -478,7 +505,7 @@ def run_case(case):
         takes_opts = "**opts" in params
         lines = ["%sdef ep(%s):" % ("async " if coro else "", params),
                  "    _a, _k = %s, %s" % (aexpr, kexpr),
-                 "    _d = _k.pop('details', None)" if takes_opts else "    _d = details",
+                 ("    _d = _k.pop('details', None)" if wants else "    _d = None") if takes_opts else "    _d = details",
                  "    k, beh = body_start(_a, _k, _d, REG)",
                  "    what, v = finish(k, beh)",
                  "    return (await v) if what == 'fut' else v" if coro else "    return v"]
@@ -508,18 +535,59 @@ def run_case(case):
         if kind == "reg":
             reg, wants, coro = op[1:4]
             check, sig, skind = (op[4:7] if len(op) >= 7 else (False, "ok", "both"))
+            prefix = bool(op[7]) if len(op) >= 8 else False
+            C["obj_of_reg"].pop(reg, None) if reg not in sess._registrations else None
             try:
-                sess.register(make_ep(reg, wants, coro, sig, skind), "com.p%d" % reg,
+                sess.register(make_ep(reg, wants, coro, sig, skind), ("p%d" if prefix else "com.p%d") % reg,
                               options=RegisterOptions(details_arg="details") if wants else None,
-                              check_types=True if check else None)
+                              check_types=True if check else None, **({"prefix": "com."} if prefix else {}))
             except BaseException:
                 pass                    # TransportLost after the transport went away: API error, nothing to observe
             else:
                 env.turn() if real else None
                 rq = [m for m in link.new_msgs() if m[0] == 64]
                 if rq:
+                    if rq[-1][3] != "com.p%d" % reg: L.append(["other", "REGISTER for", rq[-1][3]])
                     guarded(link.deliver, link.prepare([65, rq[-1][1], reg]))
                     if reg in sess._registrations: C["regs"][reg] = sess._registrations[reg]
+        elif kind == "regobj":
+            # session.register(obj, options=call-level, prefix=...): a class with one decorated method per entry, in
+            # list order (names sort in that order); own / call: None = no options object, False = RegisterOptions()
+            # without details, True = RegisterOptions(details_arg="details")
+            _, oid, flavour, call, prefix, methods = op
+            from autobahn import wamp as _wamp
+            mk_opts = lambda v: None if v is None else (RegisterOptions(details_arg="details") if v else RegisterOptions())
+            ns = {}
+            for i, (reg, own, coro) in enumerate(methods):
+                wants = own if own is not None else bool(call)
+                lines = ["%sdef ep(self_, *a, **opts):" % ("async " if coro else ""),
+                         "    _k = dict(opts)",
+                         "    _d = _k.pop('details', None)" if wants else "    _d = None",
+                         "    k, beh = body_start(tuple(a), _k, _d, REG, self_, True)",
+                         "    what, v = finish(k, beh)",
+                         "    return (await v) if what == 'fut' else v" if coro else "    return v"]
+                g = {"body_start": body_start, "finish": finish, "REG": reg}
+                exec("\n".join(lines), g)
+                fn = g["ep"]; fn.__name__ = "m%02d_%d" % (i, reg)
+                ns[fn.__name__] = _wamp.register(("p%d" if prefix else "com.p%d") % reg, options=mk_opts(own))(fn)
+            obj = _Objects.make(flavour, ns)
+            C["objs"][oid] = obj
+            fresh = [reg for reg, _, _ in methods if reg not in sess._registrations]
+            try:
+                sess.register(obj, options=mk_opts(call), **({"prefix": "com."} if prefix else {}))
+            except BaseException as e:
+                if sess._transport is not None: L.append(["other", "register(obj) raised", type(e).__name__, str(e)[:80]])
+            else:
+                env.turn() if real else None
+                for m in [m for m in link.new_msgs() if m[0] == 64]:
+                    mm = re.fullmatch(r"com\.p(\d+)", m[3])
+                    if not mm:
+                        L.append(["other", "REGISTER for", m[3]]); continue
+                    reg = int(mm.group(1))
+                    if reg in fresh: C["obj_of_reg"][reg] = oid        # a refused REGISTERED leaves the old registration
+                    guarded(link.deliver, link.prepare([65, m[1], reg]))
+                    if reg in sess._registrations and reg in fresh: C["regs"][reg] = sess._registrations[reg]
+            if flavour == "flip": obj.items = []        # truthy while registering, falsy when the invocations arrive
         elif kind == "unreg":
             r = C["regs"].get(op[1])
             if r is not None and r.active and sess._transport is not None and op[1] in sess._registrations:
@@ -552,7 +620,8 @@ def run_case(case):
             if rp is not None: details["receive_progress"] = bool(rp)
             guarded(link.deliver, link.prepare([68, req, reg, details, tok(p), {"kw": p[1]}]))
             if sum(1 for e in L if e[:2] == ["raised", "msg"]) == n_raised:
-                L.insert(pos, ["acc", k, req, reg, p, [cal, aid, prc], rp, wants])
+                oid = C["obj_of_reg"].get(reg)
+                L.insert(pos, ["acc", k, req, reg, p if oid is None else ["self", oid, p], [cal, aid, prc], rp, wants])
                 C["nextk"] = k + 1
             else:
                 C["k_of_arg"].pop(argid, None)
